@@ -37,6 +37,7 @@ class C02Facade(Harness):
                 forms.append("h2")
             if d == 3:
                 forms.append("h3cols")
+                forms.append("h3cols_tuple")
             for form in forms:
                 if tier == "quick" and form != "rows" and wk != "int":
                     continue
@@ -107,7 +108,7 @@ class C02Facade(Harness):
             h = E.attempt(facade.h2, [r[0] for r in rows], [r[1] for r in rows], bins, **kw)
         else:
             cols = [np.asarray([r[k] for r in rows], dtype=float) for k in range(D)]
-            h = E.attempt(facade.h3, cols, bins, **kw)
+            h = E.attempt(facade.h3, tuple(cols) if p["form"] == "h3cols_tuple" else cols, bins, **kw)
         if isinstance(h, Raised):
             return {"raised": h}
         d = snapnd(E, h)
